@@ -73,9 +73,9 @@ func c18Ref(ids []int64, tags osm.Tags) bool {
 		return true
 	}
 	for _, r := range c18Table {
-		v := m[r.key]
-		if v == "" || v == "no" {
-			continue
+		v, present := m[r.key]
+		if !present || v == "no" {
+			continue // the published rule skips a key that is absent or 'no'; an EMPTY value is a value
 		}
 		in := false
 		for _, x := range r.values {
@@ -154,6 +154,19 @@ func c18Exec(op string) (string, *Violation) {
 		want := c18Ref(ids, tags)
 		out := strconv.FormatBool(got)
 		if got != want {
+			// the recorded finding: a listed key present with an empty value is read as absent by the code
+			if !got && want {
+				emptied := osm.Tags{}
+				for _, t := range tags {
+					if t.Value != "" || t.Key == "area" {
+						emptied = append(emptied, t)
+					}
+				}
+				if c18Ref(ids, emptied) == got {
+					return out, &Violation{Signature: "polygon-empty-value-read-as-absent",
+						Text: sprintf("Way.Polygon() = %v, published rules say %v for nodes %v tags %v: a listed key with an empty value", got, want, ids, tags)}
+				}
+			}
 			return out, &Violation{Signature: "way-polygon-differs-from-published-rules",
 				Text: sprintf("Way.Polygon() = %v, published rules say %v for nodes %v tags %v", got, want, ids, tags)}
 		}
